@@ -444,7 +444,7 @@ def run(ctx):
             # every boundary header for every size; the (size-independent) miscellaneous ones on a tenth of the sizes
             chosen = B + (M if (n < 12 or n % 10 == 0) else [M[(n * 4 + j * 17) % len(M)] for j in range(4)])
         else:
-            chosen = r.sample(B, 7) + [M[(n * 4 + j * 17) % len(M)] for j in range(4)]
+            chosen = r.sample(B, 6) + [M[(n * 3 + j * 17) % len(M)] for j in range(3)]
         for hb in [None] + chosen:
             kind = kinds[idx % 3]
             idx += 1
